@@ -413,7 +413,13 @@ def c17(tier, seed):
                      InitPads=[False], Variants=["tr"], TrafficMode="short",
                      PatSet=["XX", "NX", "IX", "XN", "IN", "X1X1", "XK1", "I1K1", "K1X", "NX1"])
         r3 = replay("C17", t3, seed, 1)
+        t4 = session("c17-late-psk", PskMode="only", LatePsk=True, ExtraRs=[False, True], PubLens=[32], InitPads=[False], Variants=["tr"],
+                     TrafficMode="short", PatSet=["XX", "IX", "NX", "XN", "X1X1", "XK1"])
+        r4 = replay("C17", t4, seed, 1)
     else:
+        t4 = session("c17-late-psk", PskMode="only", LatePsk=True, ExtraRs=[False, True], PubLens=[32, 65], InitPads=[False],
+                     Variants=["tr"], TrafficMode="short")
+        r4 = replay("C17", t4, seed, 1, threads=14)
         t1 = session("c17-honest", PskMode="all", InitPads=[False])
         r1 = replay("C17", t1, seed, 2, threads=14)
         t2 = session("c17-faults", FaultBudget=1, FaultKinds=kinds, PskMode="single", InitPads=[False],
@@ -422,7 +428,9 @@ def c17(tier, seed):
         t3 = session("c17-extra-rs", ExtraRs=[True], FaultBudget=1, FaultKinds=["ralt", "rtrunc", "routbuf", "rstale"],
                      InitPads=[False], Variants=["tr", "sl"], TrafficMode="short", PskMode="single")
         r3 = replay("C17", t3, seed, 1, threads=14)
-    return merge("model_checking", [t1, t2, t3], [r1, r2, r3], RULE_D1 +
+    return merge("model_checking", [t1, t2, t3, t4], [r1, r2, r3, r4], RULE_D1 +
+                 "and with a psk installed late (a message refused for the missing psk after its static key field was read must "
+                 "not leave that key behind); "
                  "also with the peer's key handed to the builder although the pattern transmits it (a rejected message must "
                  "not replace the configured key); "
                  "here: get_remote_static() is compared with the model's term after EVERY call of every scenario on all "
@@ -594,18 +602,21 @@ def c09(tier, seed):
         cfgs = [("c09-top", dict(NonceMode="top", MaxSend=3, Depth=4, BadBudget=1, SetBudget=1)),
                 ("c09-top-sl", dict(NonceMode="top", Stateful=False, MaxSend=1, Depth=3, BadBudget=0, SetBudget=0)),
                 ("c09-top-ow", dict(NonceMode="top", OneWayT=True, MaxSend=2, Depth=4, BadBudget=0, SetBudget=2, SmallBufs=False)),
+                ("c09-top-rekey", dict(NonceMode="top", MaxSend=2, Depth=3, BadBudget=0, SetBudget=1, RekeyBudget=1, SmallBufs=False)),
                 ("c09-lo-big", dict(MaxSend=1, Depth=3, BadBudget=0, SetBudget=1, SmallBufs=True, BigBudget=1)),
                 ("c09-sl-big", dict(Stateful=False, MaxSend=1, Depth=2, BadBudget=0, SetBudget=0, SmallBufs=False, BigBudget=1))]
     else:
         cfgs = [("c09-top", dict(NonceMode="top", MaxSend=3, Depth=6, BadBudget=1, SetBudget=2)),
                 ("c09-lo", dict(NonceMode="lo", MaxSend=3, Depth=5, BadBudget=1, SetBudget=2)),
                 ("c09-top-sl", dict(NonceMode="top", Stateful=False, MaxSend=2, Depth=4, BadBudget=1, SetBudget=0)),
-                ("c09-top-ow", dict(NonceMode="top", OneWayT=True, MaxSend=3, Depth=5, BadBudget=1, SetBudget=2))]
+                ("c09-top-ow", dict(NonceMode="top", OneWayT=True, MaxSend=3, Depth=5, BadBudget=1, SetBudget=2)),
+                ("c09-top-rekey", dict(NonceMode="top", MaxSend=3, Depth=6, BadBudget=0, SetBudget=1, RekeyBudget=2, SmallBufs=False))]
     tl, rl = tlegs("C09", seed, cfgs)
     res = merge("model_checking", tl, rl, RULE_T +
                  "here: counters start two below the reserved value 2^64-1 (sender placed there by the verif-hooks hook, "
                  "receiver by set_receiving_nonce) and every interleaving of successful/failing reads and writes and "
-                 "explicit settings to {2^64-3, 2^64-2, 2^64-1, 0} is explored; TLC checks StepsByOne, ExhaustedFails, "
+                 "explicit settings to {2^64-3, 2^64-2, 2^64-1, 0} is explored, also with automatic and manual rekeys at any "
+                 "point (a new key does not make the reserved value usable); TLC checks StepsByOne, ExhaustedFails, "
                  "ReservedUnused; the recording cipher reports any use of nonce 2^64-1 other than the REKEY input",
                  ASSUME_SYMBOLIC + ["Apalache inductive check of the counter logic for an unbounded nonce domain: see spec/NonceInd.tla (thorough tier)"])
     res["coverage"]["apalache_inductive_check"] = apalache_nonce()
@@ -642,6 +653,7 @@ def c16(tier, seed):
         cfgs = [("c16-sl", dict(Stateful=False, MaxSend=1, Depth=3, BadBudget=0, SetBudget=0, SmallBufs=True, BigBudget=1)),
                 ("c16-sl-top", dict(Stateful=False, NonceMode="top", MaxSend=1, Depth=3, BadBudget=0, SetBudget=0)),
                 ("c16-sl-rekey", dict(Stateful=False, MaxSend=1, Depth=3, BadBudget=0, SetBudget=0, RekeyBudget=1, SmallBufs=False)),
+                ("c16-sl-rekey3", dict(Stateful=False, MaxSend=0, Depth=3, BadBudget=0, SetBudget=0, RekeyBudget=3, SmallBufs=False)),
                 ("c16-sl-ow", dict(Stateful=False, OneWayT=True, MaxSend=1, Depth=2, BadBudget=0, SetBudget=0, SmallBufs=False)),
                 ("c16-sl-ring", dict(Stateful=False, MaxSend=1, Depth=2, BadBudget=0, SetBudget=0, SmallBufs=True,
                                      backends="mix-sample"))]
@@ -650,7 +662,8 @@ def c16(tier, seed):
                 ("c16-sl-top", dict(Stateful=False, NonceMode="top", MaxSend=2, Depth=4, BadBudget=0, SetBudget=0)),
                 ("c16-sl-ring", dict(Stateful=False, MaxSend=2, Depth=3, BadBudget=0, SetBudget=0, SmallBufs=True,
                                      backends="mix")),
-                ("c16-sl-ow", dict(Stateful=False, OneWayT=True, MaxSend=2, Depth=4, BadBudget=0, SetBudget=0, BigBudget=1))]
+                ("c16-sl-ow", dict(Stateful=False, OneWayT=True, MaxSend=2, Depth=4, BadBudget=0, SetBudget=0, BigBudget=1)),
+                ("c16-sl-rekey3", dict(Stateful=False, MaxSend=1, Depth=4, BadBudget=0, SetBudget=0, RekeyBudget=3, SmallBufs=False))]
     tl, rl = tlegs("C16", seed, cfgs, per_scn=1 if tier == "quick" else 2)
     res = merge("model_checking", tl, rl, RULE_T +
                  "here: stateless mode; writes and reads under every nonce of {0,1,2,2^32,2^32+1,2^63} (top mode: 2^64-3.."
